@@ -11,7 +11,7 @@ from vlib.core import exc_site, fmt_exc
 PROPERTY = "C17"
 LEVEL = "exploration"
 CLAIM = {
-    "text": "Exploration by runtime monitoring over histories with an invariant hook: every sequence of update_dm/update_period calls up to length 4 (quick) / 5 (thorough) over an alphabet of 4 DM and 4 period targets, plus seeded random histories of length 50, is run on cubes of shape (4,4,16), (3,1,8), (1,5,32) filled with distinct values; a spy checks after every call that each profile is a rotation of the original (so the multiset is preserved), that dm/period report the last request, and that the cube equals a fresh copy rotated once by the shifts the documented drift formulas give for the current targets; repeating an update must be a no-op and returning to the folding values must restore the cube bit-for-bit. A second, dyadic geometry (P0 = 1 s, 64 s, 32 bins; targets P0(1+k/2048)) makes half-bin period drifts exact, with all histories of length <= 3 over 8 targets on two shapes. Rounds 7-8 added: cubes with empty (NaN) phase bins, ascending bands, and DM 0 as a target.",
+    "text": "Exploration by runtime monitoring over histories with an invariant hook: every sequence of update_dm/update_period calls up to length 4 (quick) / 5 (thorough) over an alphabet of 4 DM and 4 period targets, plus seeded random histories of length 50, is run on cubes of shape (4,4,16), (3,1,8), (1,5,32) filled with distinct values; a spy checks after every call that each profile is a rotation of the original (so the multiset is preserved), that dm/period report the last request, and that the cube equals a fresh copy rotated once by the shifts the documented drift formulas give for the current targets; repeating an update must be a no-op and returning to the folding values must restore the cube bit-for-bit. A second, dyadic geometry (P0 = 1 s, 64 s, 32 bins; targets P0(1+k/2048)) makes half-bin period drifts exact, with all histories of length <= 3 over 8 targets on two shapes. Rounds 7-8 added: cubes with empty (NaN) phase bins, ascending bands, and DM 0 as a target. Round 9 added: 50-bin cubes with shifts beyond 2^15 bins, and histories run with the library's logger at DEBUG.",
     "design_ref": "DESIGN.md section 3 (C17)",
     "note": "Trusted: my float64 implementation of the drift formulas (DM drift in bins of period/nbins relative to the first sub-band; linear period drift round(i*dbins/nsubints)). Where rounding sits within 1e-3 of a half bin either neighbouring shift is accepted (counted). DM drifts are expressed in bins of the folding period.",
     "technique": "runtime monitoring: operation-history enumeration with an invariant hook after every call, against a rotate-once reference model",
